@@ -1052,3 +1052,29 @@ V("C14", "hydrogen-along-C-to-O", GEOC, "                fvec4 r_co = pc-po;", "
 V("C14", "hydrogen-not-normalised", GEOC, "                fvec4 norm_r_co = r_co/sqrt(dot3(r_co, r_co));", "                fvec4 norm_r_co = r_co;", "C14-R3")
 V("C14", "twin-hydrogen-locals-renamed", GEOC, "                fvec4 r_co = pc-po;\n                fvec4 norm_r_co = r_co/sqrt(dot3(r_co, r_co));\n                fvec4 r_h = r_n+norm_r_co*0.1f;\n                r_h.store(hcoords);", "                fvec4 oc = pc-po;\n                fvec4 unit = oc/sqrt(dot3(oc, oc));\n                fvec4 hpos = unit*0.1f+r_n;\n                hpos.store(hcoords);", None)
 V("C05", "twin-triclinic-locals-renamed", GEOC, '            fvec4 r12 = pos2-pos1;\n            r12 -= box_vec3*round(r12[2]*recip_box_size[2]);\n            r12 -= box_vec2*round(r12[1]*recip_box_size[1]);\n            r12 -= box_vec1*round(r12[0]*recip_box_size[0]);\n\n            // We need to consider 27 possible periodic copies.\n\n            float min_dist2 = FLT_MAX;\n            fvec4 min_r = r12;\n            for (int x = -1; x < 2; x++) {\n                fvec4 ra = r12 + box_vec1*x;\n                for (int y = -1; y < 2; y++) {\n                    fvec4 rb = ra + box_vec2*y;\n                    for (int z = -1; z < 2; z++) {\n                        fvec4 rc = rb + box_vec3*z;\n                        float dist2 = dot3(rc, rc);\n                        if (dist2 <= min_dist2) {\n                            min_dist2 = dist2;\n                            min_r = rc;\n                        }\n                    }\n                }\n            }\n\n            // Store results.\n\n            if (store_displacement) {\n                float temp[4];\n                min_r.store(temp);\n                *displacement_out = temp[0];\n                displacement_out++;\n                *displacement_out = temp[1];\n                displacement_out++;\n                *displacement_out = temp[2];\n                displacement_out++;\n            }\n            if (store_distance) {\n                *distance_out = sqrtf(min_dist2);\n                distance_out++;\n            }\n        }\n\n        // Advance to the next frame.\n\n        xyz += n_atoms*3;\n        box_matrix += 9;', '            fvec4 dr = pos2-pos1;\n            dr -= box_vec3*round(dr[2]*recip_box_size[2]);\n            dr -= box_vec2*round(dr[1]*recip_box_size[1]);\n            dr -= box_vec1*round(dr[0]*recip_box_size[0]);\n\n            // We need to consider 27 possible periodic copies.\n\n            float best2 = FLT_MAX;\n            fvec4 best = dr;\n            for (int x = -1; x < 2; x++) {\n                for (int y = -1; y < 2; y++) {\n                    for (int z = -1; z < 2; z++) {\n                        fvec4 rc = dr + box_vec3*z + box_vec2*y + box_vec1*x;\n                        float len2 = dot3(rc, rc);\n                        if (len2 <= best2) {\n                            best = rc;\n                            best2 = len2;\n                        }\n                    }\n                }\n            }\n\n            // Store results.\n\n            if (store_displacement) {\n                float temp[4];\n                best.store(temp);\n                *displacement_out = temp[0];\n                displacement_out++;\n                *displacement_out = temp[1];\n                displacement_out++;\n                *displacement_out = temp[2];\n                displacement_out++;\n            }\n            if (store_distance) {\n                *distance_out = sqrtf(best2);\n                distance_out++;\n            }\n        }\n\n        // Advance to the next frame.\n\n        xyz += n_atoms*3;\n        box_matrix += 9;', None)
+
+# ---------------------------------------------------------------- rules added after the second independent sample
+V('C02', 'twin-mdcrd-skip-by-line-count', 'mdtraj/formats/mdcrd.py', '            for j in range(stride - 1):\n                # throw away these frames\n                try:\n                    self._read()\n                except _EOF:\n                    break\n\n        coords = np.array(coords)\n        if all(b is None for b in boxes):\n            # if there was no box information in any frame, that\'s cool\n            return coords, None\n\n        if not all(b is not None for b in boxes):\n            # but if some of them had box information and others didn\'t\n            # that probably means there was a bug in the parsing.\n            raise OSError(\n                "Inconsistent box information. Try manually " "setting has_box? Your mdcrd file might be " "corrupt.",\n            )\n\n        return coords, np.array(boxes, dtype=np.float32)\n\n    def _read(self):\n        "Read a single frame"\n        i = 0\n        coords = np.empty(self._n_atoms * 3, dtype=np.float32)\n        box = None\n\n        while i < self._n_atoms * 3:\n            line = self._fh.readline()\n            self._line_counter += 1\n\n            if line == b"":\n                raise _EOF()\n            try:\n                items = [float(line[j : j + 8]) for j in range(0, len(line.rstrip()), 8)]\n                assert 0 < len(items) <= 10\n            except Exception:\n                raise OSError(\n                    \'mdcrd parse error on line %d of "%s". This file \'\n                    "does not appear to be a valid mdcrd file." % (self._line_counter, self._filename),\n                )\n\n            length = len(items)\n\n            if i + length > len(coords):\n                raise OSError(\n                    "mdcrd parse error: specified n_atoms (%d) is likely incorrect. "\n                    "Incorrect buffer size encountered on line=%d"\n                    % (\n                        self._n_atoms,\n                        self._line_counter,\n                    ),\n                )\n\n            coords[i : i + length] = items\n            i += length\n\n            if i == self._n_atoms * 3:\n                if self._has_box is False:\n                    break\n\n                # peek ahead for box\n                here = self._fh.tell()\n                line = self._fh.readline()\n                peek = [float(elem) for elem in line.strip().split()]\n                if len(peek) == 3:\n                    box = peek\n                else:\n                    if self._has_box is True:\n                        raise OSError("Box information not found in file.")\n                    self._fh.seek(-len(line), 1)\n                    self._fh.seek(here)\n                break\n\n        self._frame_index += 1\n        return coords.reshape(self._n_atoms, 3), box\n\n', '            for j in range(stride - 1):\n                # throw away these frames\n                try:\n                    self._skip()\n                except _EOF:\n                    break\n\n        coords = np.array(coords)\n        if all(b is None for b in boxes):\n            # if there was no box information in any frame, that\'s cool\n            return coords, None\n\n        if not all(b is not None for b in boxes):\n            # but if some of them had box information and others didn\'t\n            # that probably means there was a bug in the parsing.\n            raise OSError(\n                "Inconsistent box information. Try manually " "setting has_box? Your mdcrd file might be " "corrupt.",\n            )\n\n        return coords, np.array(boxes, dtype=np.float32)\n\n    def _read(self):\n        "Read a single frame"\n        i = 0\n        coords = np.empty(self._n_atoms * 3, dtype=np.float32)\n        box = None\n\n        while i < self._n_atoms * 3:\n            line = self._fh.readline()\n            self._line_counter += 1\n\n            if line == b"":\n                raise _EOF()\n            try:\n                items = [float(line[j : j + 8]) for j in range(0, len(line.rstrip()), 8)]\n                assert 0 < len(items) <= 10\n            except Exception:\n                raise OSError(\n                    \'mdcrd parse error on line %d of "%s". This file \'\n                    "does not appear to be a valid mdcrd file." % (self._line_counter, self._filename),\n                )\n\n            length = len(items)\n\n            if i + length > len(coords):\n                raise OSError(\n                    "mdcrd parse error: specified n_atoms (%d) is likely incorrect. "\n                    "Incorrect buffer size encountered on line=%d"\n                    % (\n                        self._n_atoms,\n                        self._line_counter,\n                    ),\n                )\n\n            coords[i : i + length] = items\n            i += length\n\n            if i == self._n_atoms * 3:\n                if self._has_box is False:\n                    break\n\n                # peek ahead for box\n                here = self._fh.tell()\n                line = self._fh.readline()\n                peek = [float(elem) for elem in line.strip().split()]\n                if len(peek) == 3:\n                    box = peek\n                else:\n                    if self._has_box is True:\n                        raise OSError("Box information not found in file.")\n                    self._fh.seek(-len(line), 1)\n                    self._fh.seek(here)\n                break\n\n        self._frame_index += 1\n        return coords.reshape(self._n_atoms, 3), box\n\n    def _skip(self):\n        "Advance over a single frame without converting its numbers"\n        n_lines = (self._n_atoms * 3 + 9) // 10\n        for i in range(n_lines):\n            if self._fh.readline() == b"":\n                raise _EOF()\n        self._line_counter += n_lines\n        if self._has_box is not False:\n            here = self._fh.tell()\n            if len(self._fh.readline().split()) != 3:\n                if self._has_box is True:\n                    raise OSError("Box information not found in file.")\n                self._fh.seek(here)\n        self._frame_index += 1\n\n', None)
+V('C02', 'mdcrd-skip-line-count-off-by-one', 'mdtraj/formats/mdcrd.py', '            for j in range(stride - 1):\n                # throw away these frames\n                try:\n                    self._read()\n                except _EOF:\n                    break\n\n        coords = np.array(coords)\n        if all(b is None for b in boxes):\n            # if there was no box information in any frame, that\'s cool\n            return coords, None\n\n        if not all(b is not None for b in boxes):\n            # but if some of them had box information and others didn\'t\n            # that probably means there was a bug in the parsing.\n            raise OSError(\n                "Inconsistent box information. Try manually " "setting has_box? Your mdcrd file might be " "corrupt.",\n            )\n\n        return coords, np.array(boxes, dtype=np.float32)\n\n    def _read(self):\n        "Read a single frame"\n        i = 0\n        coords = np.empty(self._n_atoms * 3, dtype=np.float32)\n        box = None\n\n        while i < self._n_atoms * 3:\n            line = self._fh.readline()\n            self._line_counter += 1\n\n            if line == b"":\n                raise _EOF()\n            try:\n                items = [float(line[j : j + 8]) for j in range(0, len(line.rstrip()), 8)]\n                assert 0 < len(items) <= 10\n            except Exception:\n                raise OSError(\n                    \'mdcrd parse error on line %d of "%s". This file \'\n                    "does not appear to be a valid mdcrd file." % (self._line_counter, self._filename),\n                )\n\n            length = len(items)\n\n            if i + length > len(coords):\n                raise OSError(\n                    "mdcrd parse error: specified n_atoms (%d) is likely incorrect. "\n                    "Incorrect buffer size encountered on line=%d"\n                    % (\n                        self._n_atoms,\n                        self._line_counter,\n                    ),\n                )\n\n            coords[i : i + length] = items\n            i += length\n\n            if i == self._n_atoms * 3:\n                if self._has_box is False:\n                    break\n\n                # peek ahead for box\n                here = self._fh.tell()\n                line = self._fh.readline()\n                peek = [float(elem) for elem in line.strip().split()]\n                if len(peek) == 3:\n                    box = peek\n                else:\n                    if self._has_box is True:\n                        raise OSError("Box information not found in file.")\n                    self._fh.seek(-len(line), 1)\n                    self._fh.seek(here)\n                break\n\n        self._frame_index += 1\n        return coords.reshape(self._n_atoms, 3), box\n\n', '            for j in range(stride - 1):\n                # throw away these frames\n                try:\n                    self._skip()\n                except _EOF:\n                    break\n\n        coords = np.array(coords)\n        if all(b is None for b in boxes):\n            # if there was no box information in any frame, that\'s cool\n            return coords, None\n\n        if not all(b is not None for b in boxes):\n            # but if some of them had box information and others didn\'t\n            # that probably means there was a bug in the parsing.\n            raise OSError(\n                "Inconsistent box information. Try manually " "setting has_box? Your mdcrd file might be " "corrupt.",\n            )\n\n        return coords, np.array(boxes, dtype=np.float32)\n\n    def _read(self):\n        "Read a single frame"\n        i = 0\n        coords = np.empty(self._n_atoms * 3, dtype=np.float32)\n        box = None\n\n        while i < self._n_atoms * 3:\n            line = self._fh.readline()\n            self._line_counter += 1\n\n            if line == b"":\n                raise _EOF()\n            try:\n                items = [float(line[j : j + 8]) for j in range(0, len(line.rstrip()), 8)]\n                assert 0 < len(items) <= 10\n            except Exception:\n                raise OSError(\n                    \'mdcrd parse error on line %d of "%s". This file \'\n                    "does not appear to be a valid mdcrd file." % (self._line_counter, self._filename),\n                )\n\n            length = len(items)\n\n            if i + length > len(coords):\n                raise OSError(\n                    "mdcrd parse error: specified n_atoms (%d) is likely incorrect. "\n                    "Incorrect buffer size encountered on line=%d"\n                    % (\n                        self._n_atoms,\n                        self._line_counter,\n                    ),\n                )\n\n            coords[i : i + length] = items\n            i += length\n\n            if i == self._n_atoms * 3:\n                if self._has_box is False:\n                    break\n\n                # peek ahead for box\n                here = self._fh.tell()\n                line = self._fh.readline()\n                peek = [float(elem) for elem in line.strip().split()]\n                if len(peek) == 3:\n                    box = peek\n                else:\n                    if self._has_box is True:\n                        raise OSError("Box information not found in file.")\n                    self._fh.seek(-len(line), 1)\n                    self._fh.seek(here)\n                break\n\n        self._frame_index += 1\n        return coords.reshape(self._n_atoms, 3), box\n\n    def _skip(self):\n        "Advance over a single frame without converting its numbers"\n        n_lines = self._n_atoms * 3 // 10 + 1\n        for i in range(n_lines):\n            if self._fh.readline() == b"":\n                raise _EOF()\n        self._line_counter += n_lines\n        if self._has_box is not False:\n            here = self._fh.tell()\n            if len(self._fh.readline().split()) != 3:\n                if self._has_box is True:\n                    raise OSError("Box information not found in file.")\n                self._fh.seek(here)\n        self._frame_index += 1\n\n', 'C02-R2')
+V("C02", "lammps-selection-inside-parser", LMPF, "                frame_coords, frame_lengths, frame_angles = self._read()", "                frame_coords, frame_lengths, frame_angles = self._read(atom_indices)", "C02-R5")
+V("C03", "remove-solvent-returns-self", TRJ, "        return self.atom_slice(atom_indices, inplace=inplace)\n\n    def smooth(", "        if len(atom_indices) == self.n_atoms:\n            return self\n        return self.atom_slice(atom_indices, inplace=inplace)\n\n    def smooth(", "C03-R6")
+V("C03", "twin-remove-solvent-early-copy", TRJ, "        return self.atom_slice(atom_indices, inplace=inplace)\n\n    def smooth(", "        if inplace and len(atom_indices) == self.n_atoms:\n            return self\n        return self.atom_slice(atom_indices, inplace=inplace)\n\n    def smooth(", None)
+TOPF = "mdtraj/core/topology.py"
+V("C04", "subset-identity-fast-path", TOPF, "        return _topology_from_subset(self, atom_indices)", "        if len(atom_indices) == self.n_atoms:\n            return self\n        return _topology_from_subset(self, atom_indices)", "C04-R8")
+V("C04", "chains-renumbered-before-removal", TOPF, "    # Delete empty chains\n    newTopology._chains = [c for c in newTopology._chains if len(c._residues) > 0]", "    for i, chain in enumerate(newTopology._chains):\n        chain.index = i\n    newTopology._chains = [c for c in newTopology._chains if len(c._residues) > 0]", "C04-R8")
+V("C04", "twin-renumber-loop-variable", TOPF, "    for i, chain in enumerate(newTopology.chains):\n        chain.index = i", "    for k, ch in enumerate(newTopology.chains):\n        ch.index = k", None)
+V("C05", "orth-reciprocal-hoisted", DKH, "    for (int i = 0; i < n_frames; i++) {\n        // Load the periodic box vectors.\n\n#ifdef COMPILE_WITH_PERIODIC_BOUNDARY_CONDITIONS\n        fvec4 box_size(box_matrix[0], box_matrix[4], box_matrix[8], 0);\n        fvec4 inv_box_size(1.0f/box_matrix[0], 1.0f/box_matrix[4], 1.0f/box_matrix[8], 0);\n#endif",
+  "#ifdef COMPILE_WITH_PERIODIC_BOUNDARY_CONDITIONS\n    fvec4 inv_box_size(1.0f/box_matrix[0], 1.0f/box_matrix[4], 1.0f/box_matrix[8], 0);\n#endif\n    for (int i = 0; i < n_frames; i++) {\n        // Load the periodic box vectors.\n\n#ifdef COMPILE_WITH_PERIODIC_BOUNDARY_CONDITIONS\n        fvec4 box_size(box_matrix[0], box_matrix[4], box_matrix[8], 0);\n#endif", "C05-R4")
+V("C10", "voxel-size-unguarded", NLC, "            if (maxy > miny)\n                voxelSizeY = (maxy-miny)/ny;", "            voxelSizeY = (maxy-miny)/ny;", "C10-R5")
+V("C10", "voxel-clamp-before-offset", NLC, "                starty -= (int) ceil(yoffset/voxelSizeY);\n                endy -= (int) floor(yoffset/voxelSizeY);\n                endy = min(endy, starty+ny-1);", "                endy = min(endy, starty+ny-1);\n                starty -= (int) ceil(yoffset/voxelSizeY);\n                endy -= (int) floor(yoffset/voxelSizeY);", "C10-R5")
+V("C10", "twin-voxel-offset-order", NLC, "                starty -= (int) ceil(yoffset/voxelSizeY);\n                endy -= (int) floor(yoffset/voxelSizeY);\n                endy = min(endy, starty+ny-1);", "                endy -= (int) floor(yoffset/voxelSizeY);\n                starty -= (int) ceil(yoffset/voxelSizeY);\n                endy = min(endy, starty+ny-1);", None)
+NCF = "mdtraj/formats/netcdf.py"
+H5F = "mdtraj/formats/hdf5.py"
+V("C18", "netcdf-len-from-dimension", NCF, "            raise ValueError(\"I/O operation on closed file\")\n        return self.n_frames", "            raise ValueError(\"I/O operation on closed file\")\n        return self._handle.dimensions[\"frame\"]", "C18-R6")
+V("C19", "h5-flush-only-in-w-mode", H5F, "        if self._open:\n            self._handle.flush()", "        if self._open and self.mode == \"w\":\n            self._handle.flush()", "C19-R6")
+V("C19", "twin-h5-flush-write-modes", H5F, "        if self._open:\n            self._handle.flush()", "        if self._open and self.mode in (\"w\", \"a\"):\n            self._handle.flush()", None)
+V("C19", "gro-default-time-per-call", "mdtraj/formats/gro.py", "        for i in range(coordinates.shape[0]):\n            frame_time = None if time is None else time[i]", "        if time is None:\n            time = np.arange(len(coordinates))\n        for i in range(coordinates.shape[0]):\n            frame_time = None if time is None else time[i]", "C19-R3")
+V("C19", "lammps-box-style-per-call", LMPF, "        for i in range(xyz.shape[0]):\n            # --- begin header ---", "        first_angles = cell_angles[0]\n        for i in range(xyz.shape[0]):\n            cell_angles[i] = first_angles if np.allclose(first_angles, 90) else cell_angles[i]\n            # --- begin header ---", "C19-R7")
+V("C19", "twin-lammps-frame-count-hoisted", LMPF, "        for i in range(xyz.shape[0]):\n            # --- begin header ---", "        n_frames = xyz.shape[0]\n        for i in range(n_frames):\n            # --- begin header ---", None)
+V("C20", "save-pops-force-overwrite", TRJ, "        # run the saver, and return whatever output it gives\n        return saver(filename, **kwargs)", "        force_overwrite = kwargs.pop(\"force_overwrite\", True)\n        if not force_overwrite and os.path.exists(filename):\n            raise OSError('\"%s\" already exists' % filename)\n        return saver(filename, **kwargs)", "C20-R2")
+V("C20", "twin-save-reads-force-overwrite", TRJ, "        # run the saver, and return whatever output it gives\n        return saver(filename, **kwargs)", "        if not kwargs.get(\"force_overwrite\", True) and os.path.exists(filename):\n            raise OSError('\"%s\" already exists' % filename)\n        return saver(filename, **kwargs)", None)
